@@ -344,6 +344,17 @@ def b_identifiers(tier):
                 f"o.{nm}", f"v[{nm}]", f"{nm} < a", f"a ** {nm} % 7", f"({nm}, a)"]
         for s_ in ctxs:
             compare(b, s_, "ab", fns, extra_env=extra, vals=[0, 2])
+    # names that are identifiers for Python but not ASCII
+    import pymbolic
+    import pymbolic.primitives as p
+    for nm in ("é", "naïve", "αβ", "变量", "x_é1"):
+        for s_, want in ((f"{nm} + 1", p.Sum((p.Variable(nm), 1))), (f"f({nm})", p.Call(p.Variable("f"), (p.Variable(nm),))), (f"a * {nm}", p.Product((p.Variable("a"), p.Variable(nm))))):
+            assert nm.isidentifier()
+            r = outcome.run(lambda: pymbolic.parse(s_))
+            b.case(("non-ascii", s_), sample=dict(string=s_))
+            if r != ("val", want):
+                b.fail(Failure("identifier-lexing", f"cause=non-ascii-identifier string={s_!r}", dict(kind="ident-unicode", string=s_), expected=repr(want), actual=outcome.describe(r)[:150],
+                               functions=["Parser.lex_table"]))
     return b
 
 
